@@ -48,14 +48,14 @@ impl StarkConfig {
         num_columns_second: Felt,
     ) -> (r: Result<(), Error>)
         ensures
-            r.is_ok() ==> 20 <= self.proof_of_work.n_bits <= 50,                   // [C01,C02,C11:ok=>pow-bits-in-20..=50]
-            r.is_ok() ==> 1 <= self.log_n_cosets@ <= 16,                            // [C01,C02,C11:ok=>blowup-exponent-in-1..=16]
-            r.is_ok() ==> 1 <= self.n_queries@ <= 48,                               // [C01,C02,C11:ok=>query-count-in-1..=48]
+            r.is_ok() ==> 20 <= self.proof_of_work.n_bits <= 50,                   // [C01,C02,C11,C18:ok=>pow-bits-in-20..=50]
+            r.is_ok() ==> 1 <= self.log_n_cosets@ <= 16,                            // [C01,C02,C11,C18:ok=>blowup-exponent-in-1..=16]
+            r.is_ok() ==> 1 <= self.n_queries@ <= 48,                               // [C01,C02,C11,C17,C18:ok=>query-count-in-1..=48]
             r.is_ok() ==> security_bits@ <= self.n_queries@ * self.log_n_cosets@ + self.proof_of_work.n_bits as nat, // [C01,C02,C11:ok=>security-level-reached-as-integers]
-            r.is_ok() ==> trace_ok(&self.traces, self.log_trace_domain_size@ + self.log_n_cosets@, self.n_verifier_friendly_commitment_layers@, num_columns_first@, num_columns_second@), // [C01,C02,C11:ok=>trace-commitments-columns-heights-friendly-count]
+            r.is_ok() ==> trace_ok(&self.traces, self.log_trace_domain_size@ + self.log_n_cosets@, self.n_verifier_friendly_commitment_layers@, num_columns_first@, num_columns_second@), // [C01,C02,C11,C18:ok=>trace-commitments-columns-heights-friendly-count]
             r.is_ok() ==> vec_cfg_ok(&self.composition.vector, self.log_trace_domain_size@ + self.log_n_cosets@, self.n_verifier_friendly_commitment_layers@), // [C01,C02,C11:ok=>composition-commitment-height-friendly-count]
-            r.is_ok() ==> fri_ok(&self.fri, self.log_n_cosets@, self.n_verifier_friendly_commitment_layers@), // [C01,C02,C11:ok=>fri-description-consistent]
-            r.is_ok() ==> self.fri.log_input_size@ == self.log_trace_domain_size@ + self.log_n_cosets@, // [C01,C02,C11:ok=>fri-input-size-is-eval-domain-as-integers]
+            r.is_ok() ==> fri_ok(&self.fri, self.log_n_cosets@, self.n_verifier_friendly_commitment_layers@), // [C01,C02,C11,C17,C18:ok=>fri-description-consistent]
+            r.is_ok() ==> self.fri.log_input_size@ == self.log_trace_domain_size@ + self.log_n_cosets@, // [C01,C02,C11,C18:ok=>fri-input-size-is-eval-domain-as-integers]
             config_ok(self, security_bits@, num_columns_first@, num_columns_second@) ==> r.is_ok(), // [C11:every-consistent-config-accepted]
     {
         self.proof_of_work.validate()?;
